@@ -315,7 +315,8 @@ func (e *Engine) Explore(h *HarnessRun) {
 	}
 
 	if !h.syncAsserts {
-		h.pool = newAsyncPool(12, envOr("SYMGO_SOLVER", "z3-new"), h.timeoutMS, h.Mode == ModeReal)
+		h.pool = newAsyncPool(8, envOr("SYMGO_SOLVER", "z3-new"), h.timeoutMS, h.Mode == ModeReal)
+		h.pool.nlsatFirst = h.Params["nlsatFirst"] == 1
 	}
 	var mu sync.Mutex
 	cond := sync.NewCond(&mu)
@@ -329,6 +330,7 @@ func (e *Engine) Explore(h *HarnessRun) {
 	worker := func() {
 		solver := NewSolver(envOr("SYMGO_SOLVER", "z3-new"), h.timeoutMS)
 		solver.nra = h.Mode == ModeReal
+		solver.nlsatFirst = h.Params["nlsatFirst"] == 1
 		defer solver.Close()
 		m := &Machine{eng: e, tt: NewTermTable(), solver: solver, mode: h.Mode, h: h}
 		m.funcsSeen = map[*ssa.Function]bool{}
@@ -473,6 +475,13 @@ func (m *Machine) runPath(fn *ssa.Function, prefix []int) (PathStatus, string, [
 	m.instrs += m.steps
 	status, msg := StOK, ""
 	nviol, nunk := m.collectAsync()
+	if m.exploreSched && out == nil {
+		for _, r := range m.analyseRaces() {
+			m.curFrame = nil
+			m.recordViolation("no data race", "race", r.String(), false)
+			nviol++
+		}
+	}
 	switch o := out.(type) {
 	case nil:
 	case pathEnd:
